@@ -113,7 +113,7 @@ def _run_one(c: Cond) -> Res:
     infos = [m for k, m in msgs if k == "info"]
     if errs:
         msg = errs[0]
-        mm = re.search(r"when calling (" + re.escape(c.func) + r"\(.*\))(?: \(which (?:returns|raises) .*\))?\s*$", msg, flags=re.S)
+        mm = re.search(r"when calling (" + re.escape(c.func) + r"\(.*?\))(?: \(which (?:returns|raises) .*\))?\s*$", msg, flags=re.S)
         if mm:
             r.verdict, r.message, r.call = REFUTED, msg, mm.group(1)
         else:
@@ -129,10 +129,23 @@ def _run_one(c: Cond) -> Res:
     return r
 
 
+def _run_retry(c: Cond) -> Res:
+    r = _run_one(c)
+    # CrossHair occasionally gives up early (non-exhausted tree well inside the budget); one retry
+    if r.verdict in (UNKNOWN, NOPRE, ERROR) and r.cpu_s < 0.6 * c.timeout:
+        r2 = _run_one(c)
+        r2.iterations += r.iterations
+        r2.smt_checks += r.smt_checks
+        r2.smt_s += r.smt_s
+        r2.cpu_s += r.cpu_s
+        return r2
+    return r
+
+
 def run(conds: list[Cond], jobs: int = 0) -> list[Res]:
     jobs = jobs or C.JOBS
     with cf.ThreadPoolExecutor(max_workers=jobs) as ex:
-        return list(ex.map(_run_one, conds))
+        return list(ex.map(_run_retry, conds))
 
 
 _mods: dict[str, object] = {}
@@ -180,12 +193,13 @@ def api_replay(genfile: str, func: str, call: str):
     return eval(call, ns)
 
 
-def check_harness(rep: C.Report, path: str, groups: dict[str, dict], timeout: float, twin_timeout: float = 15.0, src: Optional[str] = None, explore_only: bool = False) -> None:
+def check_harness(rep: C.Report, path: str, groups: dict[str, dict], timeout: float, twin_timeout: float = 0.0, src: Optional[str] = None, explore_only: bool = False) -> None:
     """Run every contract function of a harness module.
 
     groups: {regex on function name: dict(name=..., functions=[..], bounds=...)} -> one Ob per group.
     """
     gen, where = prepare(path, src=src)
+    twin_timeout = twin_timeout or max(30.0, timeout / 2)
     conds = []
     for fn, line in where.items():
         if fn.endswith("__reach"):
@@ -196,6 +210,9 @@ def check_harness(rep: C.Report, path: str, groups: dict[str, dict], timeout: fl
     conds.sort(key=lambda c: c.twin_of is not None)
     results = run(conds)
     by = {r.cond.func: r for r in results}
+    if os.environ.get("VERIF_DEBUG"):
+        for r in results:
+            print(f"  .. {r.cond.func}: {r.verdict} paths={r.iterations} smt={r.smt_checks} cpu={r.cpu_s:.0f}s wall={r.wall_s:.0f}s {r.call or r.message[:80]}", file=sys.stderr)
     obs: dict[str, C.Ob] = {}
     for pat, meta in groups.items():
         obs[pat] = rep.add(C.Ob(meta["name"], meta.get("engine", "E1 CrossHair"), meta.get("functions", []), meta.get("bounds", "")))
